@@ -87,6 +87,7 @@ class Injector:
                 if ln is not None:
                     st.add_fact(v.aff + 4 - ln - 1)
             st.ghost[key] = True
+            st.ghost[("saw", c)] = True     # not an 'inj' key: survives a join only if every joined path has it
             self.count += 1
         elif not is_header and c == "delta15" and lo == 4:
             st.add_eq(v.aff, Aff.const(15))
@@ -301,12 +302,19 @@ def check(env, rep, tier):
             I2, res2 = run(prog, body, args=args, st=st, I=I2)
             bad = 0
             reached = 0
+            blind = 0
             for s, rv in res2:
                 marked = cls == "short" or s.ghost.get(("inj", cls))
                 if marked:
                     reached += 1
                     if is_ok(rv):
                         bad += 1
+                if cls in ("tkl_gt8", "tkl_trunc") and is_ok(rv) and not s.ghost.get(("saw", cls)):
+                    blind += 1      # accepted without the token length ever having been looked at
+            if cls in ("tkl_gt8", "tkl_trunc"):
+                rep.ob("C03.4", "class|%s|examined" % cls, blind == 0,
+                       "a datagram is accepted on %d path(s) on which the token length field was never examined: token lengths 9-15 and "
+                       "truncated tokens are not rejected there" % blind)
             if inj is not None and inj.count == 0:
                 rep.ob("C03.4", "class|%s|anchor" % cls, False,
                        "cannot establish must-reject class %s: the governing value (a nibble of an input byte) was not recognised in %s" % (cls, ENTRY))
